@@ -79,7 +79,30 @@ fn corelib_test_outcomes(cfg: &Cfg) -> Result<BTreeMap<String, String>, String> 
     Ok(out)
 }
 
+/// Names (last path segment) of the corelib tests whose body reads the gas counter: what they observe is gas,
+/// which the property allows to differ between configurations (the same exclusion as in the execution space).
+fn gas_observing_tests() -> std::collections::BTreeSet<String> {
+    let mut out = std::collections::BTreeSet::new();
+    let mut files = vec![];
+    crate::text::walk_cairo_files(std::path::Path::new("/repo/corelib/src/test"), &mut files);
+    for f in files {
+        let Ok(src) = std::fs::read_to_string(&f) else { continue };
+        for chunk in src.split("#[test]").skip(1) {
+            // the function the attribute belongs to ends where the next item starts (a crude but sufficient cut)
+            let body_end = chunk.find("\n}\n").map(|i| i + 3).unwrap_or(chunk.len());
+            let item = &chunk[..body_end];
+            if item.contains("get_available_gas") || item.contains("get_unspent_gas") {
+                if let Some(name) = item.split("fn ").nth(1).and_then(|r| r.split(['(', '<']).next()) {
+                    out.insert(name.trim().to_string());
+                }
+            }
+        }
+    }
+    out
+}
+
 pub fn run(ctx: &mut Ctx) {
+    let gas_tests = gas_observing_tests();
     let corners: Vec<Cfg> = Cfg::corners().into_iter().filter(|c| c.linear).collect();
     let base = corners[0];
     for cfg in corners.iter().skip(1) {
@@ -107,6 +130,10 @@ pub fn run(ctx: &mut Ctx) {
                 };
                 ctx.count("corelib_tests_per_config", a.len() as i64);
                 for (name, va) in &a {
+                    if gas_tests.contains(name.rsplit("::").next().unwrap_or(name)) {
+                        ctx.count("gas_observing_tests_not_compared", 1);
+                        continue;
+                    }
                     ctx.count("evaluations", 1);
                     ctx.count("corelib_test_comparisons", 1);
                     ctx.distinct(&(cfg.name(), name));
